@@ -130,7 +130,27 @@ def opaque_live(rng, count):
 
 # ------------------------------------------------------------------ the exploration
 class Case:
-    __slots__ = ("desc", "init", "contexts", "steps", "msteps", "n0", "stratum")
+    __slots__ = ("desc", "init", "contexts", "steps", "msteps", "n0", "stratum", "who")
+
+
+def observe_outside(tdf, rec):
+    """C10 / C11: what the long-lived object says about the file while NO context is open, asked right after a
+    context was closed (possibly a context of another Tdf object on the same path) and before any getter: the
+    presence checks first, then the block list"""
+    out = {"has": {}}
+    for ty in ACC_TYPES:
+        if ty in HAS:
+            try:
+                out["has"][ty] = bool(getattr(tdf, HAS[ty]))
+            except Exception as e:
+                out["has"][ty] = "raised " + type(e).__name__
+    try:
+        out["blocks"] = [block_id(b) for b in tdf.blocks]
+    except NotImplementedError:
+        out["blocks"] = "notimpl"
+    except Exception as e:
+        out["blocks"] = "raised " + type(e).__name__
+    rec["outside"] = out
 
 
 def observe_accessors(t, rec):
@@ -216,9 +236,11 @@ def fetch(thunk):
 def run_cases(chk, specs, want_acc):
     """specs: [(desc, init_path, contexts, stratum)] -> [Case] with both sides evaluated"""
     cases, jobs = [], []
-    for desc, init, contexts, stratum in specs:
+    for spec in specs:
+        desc, init, contexts, stratum = spec[:4]
+        who = spec[4] if len(spec) > 4 else None
         c = Case()
-        c.desc, c.contexts, c.stratum = desc, contexts, stratum
+        c.desc, c.contexts, c.stratum, c.who = desc, contexts, stratum, who
         path = os.path.join(chk.work, "run_%d.tdf" % len(cases))
         shutil.copyfile(init, path)
         c.init = disk_state(path)
@@ -231,7 +253,7 @@ def run_cases(chk, specs, want_acc):
             elif want_acc == "readback":
                 observe_get(t, rec)
         try:
-            c.steps = container.run_impl(path, contexts, observe=obs)
+            c.steps = container.run_impl(path, contexts, observe=obs, who=who, outside=observe_outside if want_acc is True else None)
         except Exception as e:
             c.steps = []
             chk.violation("history cannot be run at all: %s on %s: %s" % (history_label(contexts), desc, common.exc_info(e)),
@@ -275,6 +297,7 @@ def read_back(path):
 
 def replay_of(c, step=None):
     return {"initial": c.desc, "n": getattr(c, "n0", None), "history": [[op_json(o) for o in ctx] for ctx in c.contexts],
+            "contexts_run_by": getattr(c, "who", None) or "the client's one long-lived Tdf object",
             "step": step, "initial_file_hex": c.init["raw"].hex() if getattr(c, "init", None) and len(c.init["raw"]) < 20000 else None}
 
 
@@ -319,7 +342,9 @@ def gen_specs(chk, pid):
         ops = container.random_history(rng, kinds, rng.randrange(2, 26 if n >= 5 else 10), pool)
         if rng.random() < 0.55:
             ops = inject_faults(rng, ops, kinds, pool)
-        specs.append((desc, init, container.split_contexts(rng, ops), "random"))
+        ctxs = container.split_contexts(rng, ops)
+        who = rng.choice([None, None, ["long", "fresh"], ["fresh", "long", "long"]]) if len(ctxs) >= 2 else None
+        specs.append((desc, init, ctxs, "random") + ((who,) if who else ()))
     # --- 3. mandatory strata: remove first / middle / last live block with 0, 1, many unused slots after it
     for nfree in (0, 1, 5):
         for pos in (0, 1, 2):
@@ -375,6 +400,67 @@ def gen_specs(chk, pid):
         ops = pre + [wide, ("add", pool[k3][1], "behind"), ("remove", blocks.TY[k1]), ("set", pool[k3][2]) if k3 in SETTER else ("replace", pool[k3][2], None),
                      ("remove", blocks.TY[k2])]
         specs.append(("crafted N=5 + %d opaque" % (j % 2), init, [ops[:3], ops[3:]], "comment of the full field width in the middle of the table"))
+    # --- 3c. two Tdf objects on one path, used one after the other: the client's long-lived object, and a second object
+    #          created for one context (another part of the program).  What the second one did must be seen by the first:
+    #          a same-size replacement of a block that is not the last (the file length stays the same, every later block
+    #          moves), an add, a removal — followed by mutations and questions through the long-lived object
+    for j in range(3 if quick else 12):
+        k1, k2, k3 = rng.sample(["EV", "EM", "D3", "FT", "PD"], 3)
+        first = pool[k1][1 + j % 2]
+        twin, want = None, len(first.as_model()[3][0])
+        for _ in range(60):                       # another content of exactly the same encoded size
+            cand = Spec(first.kind, first.fmt, blocks.perturb(first.kind, first.fmt, first.v, rng))
+            if cand.v != first.v and len(cand.as_model()[3][0]) == want:
+                twin = cand
+                break
+        if twin is None:
+            continue
+        init = crafted(chk.work, "twohandles%d" % j, 5, opaque_live(rng, j % 2), rng)
+        adds = [("add", first, "one"), ("add", pool[k2][1], "two"), ("add", pool[k3][2], "three")]
+        same = [("set", twin) if first.kind in SETTER and j % 2 else ("replace", twin, None)]
+        after = [("remove", blocks.TY[k2]), ("add", pool[k2][2], None)]
+        last = [("remove", blocks.TY[k3])] if j % 3 else [("add", pool["OS"][1], None), ("remove", blocks.TY[k1])]
+        # the long-lived object comes back right after the second object's same-size replacement — in the 3rd context
+        # (after a refused out-of-context call on it) or in the 5th (after plain reads through it)
+        if j % 2:
+            hist, who = [adds, same, after, last], ["long", "fresh", "long", "fresh"]
+        else:
+            hist, who = [adds[:2], adds[2:], [("set", pool[k3][1]) if k3 in SETTER else ("replace", pool[k3][1], None)], same, after, last], \
+                        ["long", "long", "long", "fresh", "long", "fresh"]
+        specs.append(("crafted N=5 + %d opaque" % (j % 2), init, hist, "two Tdf objects on one path, in turn", who))
+    # --- 3d. files of a writer that does not pack: padding in front of blocks (e.g. 512-byte alignment).  Sound files
+    #          (C03's definition allows the holes); not compact, so not for C09.  Removing / replacing a block in front of
+    #          a hole moves everything behind by exactly the removed size: the blocks behind keep their bytes
+    if pid in ("C03", "C04", "C10", "C11"):
+        for j in range(3 if quick else 12):
+            nlive = 3 + j % 2
+            live = [(ty, 1, rng.randbytes(rng.randrange(1, 300)), T0 - 5, T0 - 4, T0 - 3, "aligned") for ty in rng.sample(OPAQUE_TYPES, nlive)]
+            base = 64 + 288 * 6
+            pads, off = [], base
+            for k, e in enumerate(live):
+                pad = (-off) % 512 if j % 3 != 2 else rng.choice((0, 1, 7, 300))
+                pads.append(pad)
+                off += pad + len(e[2])
+            init = os.path.join(chk.work, "padded%d.tdf" % j)
+            craft_file(init, 6, live, pads=pads)
+            k1, k2 = rng.sample(["EV", "EM", "D3", "FT", "PD"], 2)
+            ops = [("remove", live[0][0]), ("add", pool[k1][1], None), ("remove", live[1][0]), ("set", pool[k1][2]) if k1 in SETTER else ("replace", pool[k1][2], None),
+                   ("add", pool[k2][1], "two"), ("remove", live[2][0])]
+            specs.append(("crafted N=6 live=%d, padding %r in front of the blocks" % (nlive, pads), init, [ops[:2], ops[2:4], ops[4:]],
+                          "foreign file with padding between blocks"))
+    # the unused slots of a foreign file point at a free region BETWEEN two live blocks that is large enough for what is
+    # added next (a writer that dropped a block without compacting): one add, observed from all sides
+    if pid in ("C10", "C11", "C04"):
+        for j in range(2 if quick else 8):
+            small = pool["EV"][1] if j % 2 else pool["EM"][1]
+            need = len(small.as_model()[3][0])
+            live = [(ty, 1, rng.randbytes(rng.randrange(1, 200)), T0 - 5, T0 - 4, T0 - 3, "kept") for ty in rng.sample(OPAQUE_TYPES, 2)]
+            hole = need + rng.choice((0, 1, 100))
+            base = 64 + 288 * 5
+            init = os.path.join(chk.work, "freeregion%d.tdf" % j)
+            craft_file(init, 5, live, pads=[0, hole], free_offset=base + len(live[0][2]))
+            specs.append(("crafted N=5 live=2, unused slots point at a %d-byte free region between them" % hole, init,
+                          [[("add", small, "into the hole")]], "unused slots pointing at a free region between live blocks"))
     # --- 4. large payloads: tail moves of more than 64 KiB
     bigs = [s for s in pool["EM"] if len(repr(s.v)) > 100000]
     for j in range(2 if quick else 8):
@@ -667,6 +753,16 @@ def accessor_violation(s, d):
     if isinstance(acc["blocks"], list):
         if [b[0] for b in acc["blocks"]] != [e[0] for e in d["tab"]]:
             return "blocks lists types %r, table has %r" % ([b[0] for b in acc["blocks"]], [e[0] for e in d["tab"]])
+    out = s.get("outside")
+    if out and "reopen" in s:
+        rtypes = [e[0] for e in s["reopen"]["tab"] if e[0] != 0]
+        for ty, h in out["has"].items():
+            if h != (ty in rtypes):
+                return ("with no context open, the client's long-lived object reports %s = %r but the file %s a block of type %d" %
+                        (HAS[ty], h, "holds" if ty in rtypes else "holds no", ty))
+        if isinstance(out["blocks"], list) and [b[0] for b in out["blocks"]] != [e[0] for e in s["reopen"]["tab"]]:
+            return "with no context open, .blocks of the long-lived object lists types %r, the file's table has %r" % (
+                [b[0] for b in out["blocks"]], [e[0] for e in s["reopen"]["tab"]])
     return None
 
 
@@ -972,7 +1068,8 @@ def replay(chk, pid, path):
     init = os.path.join(chk.work, "replay_init.tdf")
     open(init, "wb").write(bytes.fromhex(d["initial_file_hex"]))
     contexts = [[op_unjson(o) for o in ctx] for ctx in d["history"]]
-    cases = run_cases(chk, [(d["initial"], init, contexts, "replay")],
+    who = d.get("contexts_run_by")
+    cases = run_cases(chk, [(d["initial"], init, contexts, "replay") + ((who,) if isinstance(who, list) else ())],
                       True if pid in ("C10", "C11") else "readback" if pid == "C04" else False)
     for c in cases:
         chk.note_case((c.desc, history_label(c.contexts)), True)
